@@ -112,7 +112,7 @@ pub fn run(ctx: &Ctx) {
     ctx.sse("hmac_key_lengths", "key length 0..=200 x data length {0,1,63,64,65,500}", 201 * 6, |i| Case::Hmac { seed: ctx.seed ^ i as u64, klen: i / 6, dlen: [0, 1, 63, 64, 65, 500][i % 6] }, check);
     let nlow = gen::low_order_points().len();
     ctx.sse("x25519_special_points", "14 small-order spellings + 19 non-canonical + base x 8 clamp-noise patterns", (nlow + 20) * 8, |i| { let j = i / 8; Case::X25519 { k: ctx.seed.wrapping_add(i as u64), u: if j < nlow { UCoord::LowOrder(j) } else if j < nlow + 19 { UCoord::NonCanonical((j - nlow) as u8) } else { UCoord::Base }, clamp_noise: (i % 8) as u8 } }, check);
-    ctx.pbt("pbt_primitives", ctx.n(60_000, 3_000_000), || prop_oneof![
+    ctx.pbt("pbt_primitives", ctx.n(400_000, 4_000_000), || prop_oneof![
         3 => (any::<u64>(), prop_oneof![4 => 0usize..400, 1 => 0usize..70_000], 0usize..80).prop_map(|(seed, mlen, alen)| Case::Aead { seed, mlen, alen, tamper: false }),
         1 => (any::<u64>(), 0usize..40, 0usize..24).prop_map(|(seed, mlen, alen)| Case::Aead { seed, mlen, alen, tamper: true }),
         3 => (any::<u64>(), prop_oneof![3 => any::<u64>().prop_map(UCoord::Random), 2 => any::<u64>().prop_map(UCoord::RandomHighBit), 1 => (0usize..14).prop_map(UCoord::LowOrder), 1 => any::<u8>().prop_map(UCoord::NonCanonical)], 0u8..8).prop_map(|(k, u, clamp_noise)| Case::X25519 { k, u, clamp_noise }),
